@@ -323,11 +323,18 @@ func bip39Consts(c *Ctx) {
 	// --- the checksum hash is SHA-256 -----------------------------------------------------------
 	shaOK := false
 	if fd := c.Func(bip39MnemonicGo, "", "computeChecksum"); fd != nil && fd.Body != nil {
+		// any body that hashes `data` with crypto/sha256 and nothing else (sha256.New()+Write+Sum or sha256.Sum256)
 		src := strings.Join(strings.Fields(c.Src(fd.Body)), " ")
-		shaOK = src == "{ hasher := sha256.New() hasher.Write(data) return hasher.Sum(nil) }" &&
-			importPathOf(f, "sha256") == "crypto/sha256"
+		uses := strings.Contains(src, "sha256.New()") || strings.Contains(src, "sha256.Sum256(data)")
+		other := false
+		for _, pk := range []string{"sha512.", "sha1.", "md5.", "sha3.", "ripemd160.", "blake2b.", "blake2s."} {
+			if strings.Contains(src, pk) {
+				other = true
+			}
+		}
+		shaOK = uses && !other && importPathOf(f, "sha256") == "crypto/sha256"
 	}
-	c.check("bip39.checksumHash", shaOK, "computeChecksum is no longer sha256.New / Write(data) / Sum(nil) over crypto/sha256")
+	c.check("bip39.checksumHash", shaOK, "computeChecksum no longer hashes with crypto/sha256 (sha256.New or sha256.Sum256)")
 
 	// --- white space of strings.Fields / strings.TrimSpace ---------------------------------------
 	var runes []string
